@@ -228,6 +228,13 @@ pub fn c05(rng: &mut Rng, _tier: &str, idx: usize) -> Case {
             c.op(format!("matsim1 {} {}", comb, ids_str(&ks)));
             c.stat("matrices", 1);
         }
+        // several rows, each dimension far below the u16 limit, but 65 536 cells or more
+        let (r, cc) = [(256usize, 256usize), (300, 280), (128, 512), (512, 129), (255, 257), (257, 255)][(idx / 52) % 6];
+        let comb = ["bma", "funsimavg", "funsimmax"][(idx / 52) % 3];
+        let ks: Vec<u32> = (0..r * cc).map(|_| rng.below(130) as u32).collect();
+        c.op(format!("matsimq {} {} {} {}", comb, r, cc, ids_str(&ks)));
+        c.stat("matrices", 1);
+        c.stat(&format!("huge_matrix_{r}x{cc}"), 1);
         c.stat(&format!("huge_matrix_1x{n}"), 1);
         c.nontrivial = true;
         return c;
